@@ -58,10 +58,11 @@ const (
 	opSpawn    //
 	opJoin     //
 	opYield    // explicit yield (spin loops)
+	opData     // data choice of the running thread (which pooled value a Pool.Get returns)
 )
 
 var opNames = [...]string{"start", "exit", "R", "W", "atomic", "lock", "lock-announce", "rlock", "unlock", "runlock", "trylock",
-	"once", "once-done", "wg-add", "wg-wait", "spawn", "join", "yield"}
+	"once", "once-done", "wg-add", "wg-wait", "spawn", "join", "yield", "data-choice"}
 
 // op is the pending operation of a parked thread.
 type op struct {
@@ -111,8 +112,12 @@ type thread struct {
 	selfObj   objState // join target
 }
 
-// pointRec is one scheduling point of an execution.
+// pointRec is one choice point of an execution: a scheduling point (which enabled thread runs
+// next) or, with data set, a DATA choice of the running thread (Exec.choose: which of n
+// alternatives a nondeterministic operation takes; enabled then has the n low bits set, choice
+// == chosen is the alternative, and the point is neither a preemption nor a context switch).
 type pointRec struct {
+	data           bool
 	enabled        uint32 // bit i = thread i enabled
 	running        int8   // id of the thread that called the scheduler, -1 if none/finished
 	runningEnabled bool
@@ -125,6 +130,12 @@ type pointRec struct {
 // canonical order: the running thread first if still enabled, then ascending ids.
 func (p *pointRec) order(buf []int8) []int8 {
 	buf = buf[:0]
+	if p.data {
+		for i := int8(0); int(i) < p.nEnabled(); i++ {
+			buf = append(buf, i)
+		}
+		return buf
+	}
 	if p.runningEnabled {
 		buf = append(buf, p.running)
 	}
@@ -193,6 +204,7 @@ type traceEv struct {
 }
 
 type prefixEntry struct {
+	data           bool
 	choice         uint8
 	enabled        uint32
 	running        int8
@@ -355,7 +367,7 @@ func (x *Exec) schedule(from *thread) {
 	choice := 0
 	if idx < len(x.prefix) {
 		pe := x.prefix[idx]
-		if pe.enabled != p.enabled || pe.running != p.running || pe.runningEnabled != p.runningEnabled || int(pe.choice) >= len(order) {
+		if pe.data || pe.enabled != p.enabled || pe.running != p.running || pe.runningEnabled != p.runningEnabled || int(pe.choice) >= len(order) {
 			x.abortFrom(from, "divergence", fmt.Sprintf("replay diverged at point %d: recorded enabled=%b running=%d(%v) choice=%d, now enabled=%b running=%d(%v)",
 				idx, pe.enabled, pe.running, pe.runningEnabled, pe.choice, p.enabled, p.running, p.runningEnabled))
 			return
@@ -417,6 +429,51 @@ func (x *Exec) schedule(from *thread) {
 			runtime.Goexit()
 		}
 	}
+}
+
+// maxDataChoice bounds the alternatives of one data choice point.
+const maxDataChoice = 8
+
+// choose is a DATA choice point of the running thread t: it returns an alternative in 0..n-1.
+// The explorer branches over every alternative (a data choice is not a context switch: it costs
+// no preemption under a preemption bound and leaves the sleep sets of the complete mode alone);
+// the default alternative is 0. The choice is recorded in the schedule, so replays and the
+// divergence check cover it. Outside the run phase (setup, prefix, post) the answer is 0.
+func (x *Exec) choose(t *thread, n int, obj uintptr) int {
+	if n <= 1 || t == nil || x.mode != modeRun {
+		return 0
+	}
+	if n > maxDataChoice {
+		n = maxDataChoice
+	}
+	x.steps++
+	if x.steps > x.horizon {
+		x.abortFrom(t, "horizon", fmt.Sprintf("step horizon %d exceeded", x.horizon))
+		return 0
+	}
+	p := pointRec{data: true, enabled: uint32(1)<<uint(n) - 1, running: int8(t.id), runningEnabled: true}
+	idx := len(x.points)
+	choice := 0
+	if idx < len(x.prefix) {
+		pe := x.prefix[idx]
+		if !pe.data || pe.enabled != p.enabled || pe.running != p.running || int(pe.choice) >= n {
+			x.abortFrom(t, "divergence", fmt.Sprintf("replay diverged at point %d: recorded data=%v enabled=%b running=%d choice=%d, now a data choice among %d by thread %d",
+				idx, pe.data, pe.enabled, pe.running, pe.choice, n, t.id))
+			return 0
+		}
+		choice = int(pe.choice)
+		if x.useSleep && idx == len(x.prefix)-1 {
+			x.curSleep = x.branchSleep
+		}
+	}
+	p.choice = uint8(choice)
+	p.chosen = int8(choice)
+	if x.keepOps {
+		p.sleep = x.curSleep
+	}
+	x.points = append(x.points, p)
+	x.trace = append(x.trace, traceEv{obj: obj, tid: t.id, kind: opData, write: true, site: fmt.Sprintf("alt=%d/%d", choice, n)})
+	return choice
 }
 
 func trailingZeros(m uint32) int {
